@@ -77,7 +77,7 @@ var c16Results = []rdesc{
 func (c16) Cases(tier string) int {
 	if tier == "thorough" {
 		// 682 one-parameter + 2 * 15004 two-parameter / one-parameter-plus-variadic signatures, then PRNG samples
-		return 682 + 2*15004 + 40000
+		return 682 + 2*15004 + 22*22*22*31 + 40000
 	}
 	return 2600
 }
@@ -117,7 +117,7 @@ func (c16) Thresholds(tier string) map[string]int64 {
 
 func (c16) Exhaustive(tier string) (bool, string) {
 	if tier == "thorough" {
-		return true, "every one-parameter signature {22 parameter types} x {20 function result lists, 11 command result lists}, every two-parameter signature {22 x 22} x the same result lists, and every one-parameter-plus-variadic-tail signature {22 x 22} x the same result lists are enumerated completely (30690 signatures); signatures with three parameters or two results beyond these are PRNG-sampled"
+		return true, "every one-parameter signature {22 parameter types} x {20 function result lists, 11 command result lists}, every two-parameter signature {22 x 22} x the same result lists, and every one-parameter-plus-variadic-tail signature {22 x 22} x the same result lists are enumerated completely and every three-parameter signature {22 x 22 x 22} x the same result lists are enumerated completely (360778 signatures); signatures with two results or with two or more parameters plus a variadic tail are PRNG-sampled"
 	}
 	return true, "cases 0..681 enumerate every one-parameter function signature {22 parameter types} x {20 result lists} and every one-parameter command signature {22} x {11 result lists}; all other signatures (0-3 parameters, variadic tails, 0-2 results) are PRNG-sampled"
 }
@@ -284,6 +284,13 @@ func (c16) pickSig(c *core.Ctx) sig {
 			}
 			v := c16Params[i/k%np]
 			return sig{params: []tdesc{c16Params[i/k/np]}, variadic: &v, results: lists[i%k], command: cmd}
+		case i < 2*(twoF+twoC)+np*np*np*(len(fr)+len(c16CommandResults)):
+			// every three-parameter signature
+			i -= 2 * (twoF + twoC)
+			all := append(append([][]rdesc{}, fr...), c16CommandResults...)
+			k := len(all)
+			j := i / k
+			return sig{params: []tdesc{c16Params[j/np/np], c16Params[j/np%np], c16Params[j%np]}, results: all[i%k], command: i%k >= len(fr)}
 		}
 	}
 	var s sig
